@@ -34,6 +34,7 @@ type outRec struct { // Loc-RIB path record of RibOut
 	Comm []string `json:"comm"`
 	OTC  uint32   `json:"otc"`
 	Aggr bool     `json:"aggr"`
+	Unk  bool     `json:"unk"`
 }
 
 var commByName = map[string]uint32{"noexport": types.WellKnownCommunityNoExport, "noadvertise": types.WellKnownCommunityNoAdvertise,
@@ -63,6 +64,9 @@ func (r outRec) build(v6 bool) *route.Path {
 	if r.Aggr {
 		p.BGPPath.BGPPathA.Aggregator = &types.Aggregator{Address: 0x0a000009, ASN: 65001}
 	}
+	if r.Unk {
+		p.BGPPath.UnknownAttributes = []types.UnknownPathAttribute{{Optional: true, Transitive: true, TypeCode: 200, Value: []byte{1, 2}}}
+	}
 	return p
 }
 
@@ -80,6 +84,7 @@ type wireRec struct {
 	ID          uint32   `json:"id"`
 	Src         uint32   `json:"src"`
 	Aggr        bool     `json:"aggr"`
+	Unk         bool     `json:"unk"`
 }
 
 func (w wireRec) key(maskRR bool) string {
@@ -114,6 +119,7 @@ func projectWire(p *route.Path, v6 bool) wireRec {
 	}
 	w.NH = nhNum(a.NextHop, v6)
 	w.Aggr = a.Aggregator != nil
+	w.Unk = len(p.BGPPath.UnknownAttributes) > 0
 	if p.BGPPath.ASPath != nil {
 		for _, seg := range *p.BGPPath.ASPath {
 			w.ASP = append(w.ASP, seg.ASNs...)
@@ -188,6 +194,7 @@ type riboutSess struct {
 func init() {
 	core.Register("ribout", func(b *core.Behaviour, p core.Params) *core.Divergence {
 		emb := getEmbedding(p.Str("emb", "v4o8"))
+		idStart := p.Int("idstart", 0)
 		var (
 			lr    *locRIB.LocRIB
 			out   *adjRIBOut.AdjRIBOut
@@ -236,6 +243,10 @@ func init() {
 		}
 		newOut := func() {
 			out = adjRIBOut.New(lr, sa, buildChain(chain, emb))
+			if idStart > 0 {
+				// the session's history starts close to the wrap of the identifier allocation counter
+				out.VerifSetLastPathID(uint32(idStart))
+			}
 			cl = &outClient{emb: emb, ap: sess.N > 1, view: map[string]string{}, mask: sess.RRC}
 			out.Register(cl)
 			opt := routingtable.ClientOptions{BestOnly: true}
@@ -463,7 +474,7 @@ func init() {
 				// C11: identifiers unique per prefix
 				if sess.N > 1 {
 					for id, n := range ids {
-						if n > 1 || id == 0 {
+						if n > 1 || (id == 0 && idStart == 0) { // a failed allocation leaves 0; after a wrap of the counter 0 is an identifier like any other
 							return &core.Divergence{Step: i, Action: a, Field: "path-id", Kind: "duplicate",
 								Want: "distinct non-zero identifiers per prefix", Got: fmt.Sprint(ids)}
 						}
